@@ -232,7 +232,19 @@ fn f0_pdf(rng: &mut Rng, nwin: usize) -> Vec<f32> {
         _ => rng.unit(),
     };
     v.push(msd as f32);
+    signed_zero_means(rng, &mut v, 1, nwin);
     v
+}
+
+/// value class: a few mean entries in `lo..hi` become exactly +0.0 or -0.0 (float32 0x80000000) — a dynamic-feature mean of
+/// exactly zero is what a stationary segment has, and the sign of a zero must survive to synthesis bit for bit
+/// (seeded changes C04g, C05g)
+fn signed_zero_means(rng: &mut Rng, v: &mut [f32], lo: usize, hi: usize) {
+    if hi <= lo || !rng.chance(0.2) { return; }
+    for _ in 0..rng.range(1, 2) {
+        let k = rng.range(lo, hi - 1);
+        v[k] = if rng.chance(0.5) { -0.0 } else { 0.0 };
+    }
 }
 
 fn spectrum_pdf(rng: &mut Rng, veclen: usize, nwin: usize, stage: usize, log_gain: bool) -> Vec<f32> {
@@ -262,6 +274,8 @@ fn spectrum_pdf(rng: &mut Rng, veclen: usize, nwin: usize, stage: usize, log_gai
         let v = if i < veclen { rng.uniform(0.05, 0.6) } else { rng.uniform(0.01, 0.1) };
         out.push(v as f32);
     }
+    // stage 0: any coefficient but the gain; LSP: only the dynamic-feature means (the frequencies must stay increasing)
+    signed_zero_means(rng, &mut out, if stage == 0 { 1 } else { veclen }, veclen * nwin);
     out
 }
 
